@@ -21,6 +21,7 @@ import (
 	"time"
 
 	"github.com/libsv/go-bt/v2"
+	"github.com/libsv/go-bt/v2/bscript"
 	"pgregory.net/rapid"
 
 	"verif/harness/pbt"
@@ -282,6 +283,19 @@ type gstate struct {
 	nonDefault map[loc]bool        // a written value (or a removal) was observed: the default cannot come back
 	seenExp    []map[int]int
 	nonInitExp []bool
+	tx         *bt.Tx // a transaction of this goroutine alone (priced with the shared quotes)
+}
+
+// ownTx returns the goroutine's private transaction: one P2PKH input, a payment and a data output.
+func (s *gstate) ownTx() *bt.Tx {
+	if s.tx == nil {
+		tx := bt.NewTx()
+		_ = tx.From(fmt.Sprintf("%064x", s.g+1), 0, "76a9140102030405060708090a0b0c0d0e0f101112131488ac", 100000)
+		tx.AddOutput(&bt.Output{Satoshis: 1000, LockingScript: bscript.NewFromBytes([]byte{0x76, 0xa9, 0x14, 1, 2, 3, 4, 5, 6, 7, 8, 9, 10, 11, 12, 13, 14, 15, 16, 17, 18, 19, 20, 0x88, 0xac})})
+		tx.AddOutput(&bt.Output{LockingScript: bscript.NewFromBytes(append([]byte{0x00, 0x6a, 0x20}, make([]byte, 32)...))})
+		s.tx = tx
+	}
+	return s.tx
 }
 
 func newGState(g, nq int) *gstate {
@@ -428,6 +442,22 @@ func (w *world) exec(o Op, i int, gs *gstate) error {
 					gs.nonDefault[loc{o.Q, t}] = true
 				}
 			}
+		}
+	case "txf":
+		// the consumers on the transaction side read the shared quote too: a transaction of this
+		// goroutine alone is priced with it (an error is possible while a partial document has
+		// removed a fee type; a panic or a data race is not)
+		tx := gs.ownTx()
+		switch o.V % 4 {
+		case 0:
+			_, _ = tx.IsFeePaidEnough(w.q[o.Q])
+		case 1:
+			_, _ = tx.EstimateIsFeePaidEnough(w.q[o.Q])
+		case 2:
+			_, _ = tx.EstimateFeesPaid(w.q[o.Q])
+		default:
+			c := tx.Clone()
+			_ = c.Change(bscript.NewFromBytes([]byte{0x76, 0xa9, 0x14, 1, 2, 3, 4, 5, 6, 7, 8, 9, 10, 11, 12, 13, 14, 15, 16, 17, 18, 19, 20, 0x88, 0xac}), w.q[o.Q])
 		}
 	case "qfee":
 		f, err := w.fqs.Fee(miner(o.M), feeTypes[o.T])
@@ -753,9 +783,9 @@ func bucket(n int, edges ...int) string {
 // ---------------------------------------------------------------------------
 // generator
 
-var quoteOps = []string{"fee", "fee", "add", "add", "exp", "upd", "expd", "mar", "mar", "unm"}
+var quoteOps = []string{"fee", "fee", "add", "add", "exp", "upd", "expd", "mar", "mar", "unm", "txf"}
 var quotesOps = []string{"qfee", "qfee", "quote", "quote", "addm", "addd", "updm", "updm", "qmar",
-	"fee", "add", "exp", "upd", "expd", "mar", "unm"}
+	"fee", "add", "exp", "upd", "expd", "mar", "unm", "txf"}
 
 func genOp(t *rapid.T, kinds []string, nq int) Op {
 	o := Op{K: rapid.SampledFrom(kinds).Draw(t, "k")}
@@ -766,6 +796,8 @@ func genOp(t *rapid.T, kinds []string, nq int) Op {
 		o.Q = rapid.IntRange(0, nq-1).Draw(t, "q")
 	case "upd":
 		o.Q, o.V = rapid.IntRange(0, nq-1).Draw(t, "q"), rapid.IntRange(0, 1).Draw(t, "v")
+	case "txf":
+		o.Q, o.V = rapid.IntRange(0, nq-1).Draw(t, "q"), rapid.IntRange(0, 3).Draw(t, "v")
 	case "unm":
 		o.Q, o.V = rapid.IntRange(0, nq-1).Draw(t, "q"), rapid.SampledFrom([]int{docBoth, docBoth, docBoth, docBoth, docStdOnly, docDataOnly, docUnknownType, docMalformed}).Draw(t, "v")
 	case "qfee", "quote", "updm":
